@@ -300,12 +300,24 @@ def real_round(e, what: str = "op"):
     cx.assume(z3.Implies(e >= 0, r >= 0))
     cx.assume(z3.Implies(e <= 0, r <= 0))
     cx.assume(z3.Implies(z3.And(z3.IsInt(e), ae <= z3.RealVal(2 ** 53)), r == e))
-    for c in FloatMode.anchors:
+    for c in tuple(FloatMode.anchors) + tuple(cx.ghost.get("anchors", ())):
         ct = c if isinstance(c, z3.ExprRef) else _real(c)
         cx.assume(z3.Implies(e <= ct, r <= ct))
         cx.assume(z3.Implies(e >= ct, r >= ct))
     cx.oblige(f"{cx.tag}#fp_side:no_overflow", ae <= z3.RealVal(2 ** 1000), kind="call_pre")
     return r
+
+
+def add_anchor(cx, term, m: int, name: str = "anchor") -> None:
+    """declare the real term `term` to be a binary64 number for the monotonicity rule of the relaxed model; the
+    sufficient condition  term * 2^m is an integer of magnitude <= 2^53 (m <= 1000)  becomes an obligation"""
+    if FloatMode.mode != "real":
+        return
+    assert 0 <= m <= 1000
+    scaled = term * z3.RealVal(2 ** m)
+    a = z3.If(scaled >= 0, scaled, -scaled)
+    cx.oblige(f"{cx.tag}#fp_side:anchor_representable:{name}", z3.And(z3.IsInt(scaled), a <= z3.RealVal(2 ** 53)), kind="call_pre")
+    cx.ghost.setdefault("anchors", []).append(term)
 
 
 def to_term_float(v):
